@@ -17,8 +17,8 @@
    executed write is logged, and that every request of a call is served by exactly one packet. *)
 From Coq Require Import String Permutation.
 From PV Require Import Base.Bytes Base.Res Base.PyStr Model.CodecFloat Model.Path Model.LogixPlan Model.LogixWrite.
-From PV Require Import Spec.TargetIface Spec.TargetCore Spec.Project Spec.Expect Spec.TargetLogix.
-From PV Require Import Proofs.PlanP Proofs.TargetLogixP Proofs.WriteBits Proofs.WriteEnc Proofs.WriteMsg Proofs.WritePlan Proofs.WriteCorrect Proofs.WriteFull Proofs.WriteBools.
+From PV Require Import Spec.EncapParser Spec.MRParser Spec.TargetIface Spec.TargetCore Spec.Project Spec.Expect Spec.TargetLogix.
+From PV Require Import Proofs.PlanP Proofs.TargetLogixP Proofs.WriteBits Proofs.WriteEnc Proofs.WriteMsg Proofs.WritePlan Proofs.WriteCorrect Proofs.WriteFull Proofs.WriteBools Proofs.WriteCall Proofs.WriteStruct.
 Open Scope Z_scope.
 
 (* ================================================================ rmw_effect *)
@@ -299,10 +299,66 @@ Theorem C02_bool_element_holds : C02_bool_element.
 Proof. exact write_correct_bool_element. Qed.
 Print Assumptions C02_bool_element_holds.
 
+(* a whole structure given as a dict: visible members at their offsets (nested structures, strings,
+   arrays of them, by induction over template nesting), BOOL members in the bits of their hidden host
+   bytes, hidden members and padding zero — for the class Proofs/WriteStruct.ty_guard; the statement is
+   Proofs/WriteStruct.stmt_struct *)
+Definition C02_struct : Prop := stmt_struct.
+Theorem C02_struct_holds : C02_struct.
+Proof. exact write_correct_struct. Qed.
+Print Assumptions C02_struct_holds.
+
+(* ================================================================ the whole call *)
+(* A multi-service packet as MultiServiceRequestPacket.build_message emits it, handed to the target's
+   message router (TargetCore.dispatch): parsed as service 0x0A to the message router, unwrapped into
+   exactly the embedded requests, which are executed one after the other by the application handler;
+   application state and executed-write log are those of the embedded requests run in order (so the
+   per-request theorems above apply to each of them, on the memory the previous one left). *)
+Definition C02_multi : Prop :=
+  forall (S : Type) (h : handler S) tr cap sq (st : tstate S) seq members m reqs,
+  multi_message seq members = Ok m -> members <> [] ->
+  t_inject st = [] -> cf_multi_service (t_cfg st) = true ->
+  (forall msgs, map_res tag_only_message members = Ok msgs ->
+     Forall2 (fun it r => parse_mr it = RcOk r /\ to_handler r = true) msgs reqs) ->
+  exists rq caps, parse_mr (skipn 2 m) = RcOk rq /\ length caps = length reqs
+    /\ let st' := fst (dispatch h tr cap sq st rq) in
+       t_app st' = fst (run_items h tr (t_app st) (combine reqs caps))
+       /\ writes_logged st' = rev (filter is_write_ev (snd (run_items h tr (t_app st) (combine reqs caps)))) ++ writes_logged st.
+Theorem C02_multi_holds : C02_multi.
+Proof. intros S h. exact (multi_packet_executes h). Qed.
+Print Assumptions C02_multi_holds.
+
+(* the Logix write services ignore the reply capacity (the capacities in C02_multi are immaterial) *)
+Definition C02_cap_indep : Prop :=
+  forall st tr c1 c2 rq l,
+  resolve_path (ls_proj st) (mr_service rq =? 85) (mr_path rq) = TgTag l ->
+  mr_service rq = 77 \/ mr_service rq = 78 \/ mr_service rq = 83 ->
+  logix_request st tr c1 rq = logix_request st tr c2 rq.
+Theorem C02_cap_indep_holds : C02_cap_indep.
+Proof. exact logix_write_cap_indep. Qed.
+Print Assumptions C02_cap_indep_holds.
+
+(* a fragmented transfer end to end: every fragment _send_write_fragmented emits is accepted by Write
+   Tag Fragmented, the memory afterwards is the memory ONE store of the whole value leaves, and exactly
+   one executed write per fragment is logged, at its running offset *)
+Definition C02_frag_transfer : Prop :=
+  forall p m l img pt ty n s conn ovh value img',
+  (forall r, parse_wtype (pt ++ r) = Some (ty, r)) -> type_matches p l ty = true -> loc_esize p l = Some s ->
+  w_bit l = None -> 1 <= n <= w_avail l -> n < 65536 -> Expect.blen value = n * s -> n * s < 4294967296 ->
+  mem_get m (w_inst l) = Some img -> 0 < conn - ovh -> value <> [] ->
+  put_bytes img (w_off l) value = Some img' ->
+  let frs := write_fragments conn ovh value in
+  exists evs, run_frags p l pt n m frs = Some (mem_set m (w_inst l) img', evs)
+    /\ filter is_store_ev evs = map (fun os => EvApp 1 [w_inst l; w_off l + fst os; 83] (snd os)) frs.
+Theorem C02_frag_transfer_holds : C02_frag_transfer.
+Proof. exact frag_transfer_correct. Qed.
+Print Assumptions C02_frag_transfer_holds.
+
 (* ================================================================ the property *)
 Definition C02_proved : Prop :=
   C02_rmw_effect /\ C02_encode_value /\ C02_build_once /\ C02_layout /\ C02_fragments /\ C02_applied_once
-  /\ C02_value /\ C02_array /\ C02_string /\ C02_bool /\ C02_bits /\ C02_bools /\ C02_bool_element /\ C02_frame.
+  /\ C02_value /\ C02_array /\ C02_string /\ C02_bool /\ C02_bits /\ C02_bools /\ C02_bool_element /\ C02_frame
+  /\ C02_multi /\ C02_cap_indep /\ C02_frag_transfer /\ C02_struct.
 
 (* a one-element slice of a BOOL array `arr[i]{1}` written with a one-item list, whatever the item
    (refuted before pycomm3 4698d97: set_bit tested the truthiness of the LIST) *)
@@ -311,30 +367,30 @@ Theorem C02_bool_slice1_holds : C02_bool_slice1.
 Proof. exact write_correct_bool_slice1. Qed.
 Print Assumptions C02_bool_slice1_holds.
 
-(* full strength: also whole structures given as dicts (statement in Proofs/WriteFull.v) *)
-Definition C02_full : Prop := C02_proved /\ C02_bool_slice1 /\ stmt_struct.
+(* full strength: whole structures given as dicts for EVERY well-formed project (C02_struct below is
+   the same statement for the class [ty_guard]) *)
+Definition C02_full : Prop :=
+  C02_proved /\ C02_bool_slice1 /\ stmt_struct_with (fun p _ => wf_project p = true).
 
-(* PARTIAL: what is proved (and C02_bool_slice1_holds).  Still missing from C02_full:
-   [stmt_struct]: a whole structure given as a dict (StructTag._encode = Spec encode_members_with, by
-     induction over template nesting, with hosts preceding their bit members and REAL members
-     round-tripping through binary64); with it arrays of structures / of strings.  Structures given as
-     bytes are passed through unchanged (C02_encode_value, first clause) and stored by the same Write
-     Tag service as strings (C02_string shows the A0 02 + handle type field and the store).
-   Also not composed in Coq: the whole call through Multiple Service Packet unwrapping (the target's
-   multi_service loop applies the per-service theorems to each embedded request; C02_applied_once gives
-   the one-packet-per-request part), the fragmented transfer end to end (C02_fragments + the
-   svc_write_frag clause of C02_layout give: the segments tile the value, each is stored at its offset,
-   and storing them in order = storing the value), and the request path (C09) / request parsing
-   (C01, C03), which enter as the hypothesis that the target resolves the path to the wire location
-   of the reference place.  All of these are exercised on the implementation by the oracle of
-   harness/props/c02.py on every run. *)
+(* PARTIAL: C02_partial (+ C02_bool_slice1_holds).  What C02_full asks beyond it:
+   whole structures outside the class of C02_struct: BOOL-array (DWORD) members, BOOL members that
+   overlay a VISIBLE host member (module-defined types; equal only when the host precedes its bits),
+   hidden BOOL members; `{n}` slices of arrays of structures / strings at top level (C02_array is for
+   elementary elements; elements of such arrays INSIDE a structure are covered by C02_struct);
+   structures given as bytes (passed through by C02_encode_value, stored by the same service: not composed).
+   Entering as hypotheses (other properties): the request path the driver emits resolves on the target
+   to the wire location of the reference place (C09 + C01/C03 parsing), the connected-transport layer
+   hands the connected data item to the message router (C11, C14), a REAL value is the binary64 whose
+   rounding is the reference binary32 (C06/C07 floats).
+   All of these are exercised on the implementation by the oracle of harness/props/c02.py on every run. *)
 Theorem C02_partial : C02_proved.
 Proof.
   split; [exact rmw_effect|]. split; [exact C02_encode_value_holds|]. split; [exact C02_build_once_holds|].
   split; [exact C02_layout_holds|]. split; [exact C02_fragments_holds|]. split; [exact applied_once|].
   split; [exact write_correct_value|]. split; [exact write_correct_array|]. split; [exact write_correct_string|].
   split; [exact write_correct_bool|]. split; [exact write_correct_bits|]. split; [exact write_correct_bools|].
-  split; [exact write_correct_bool_element|]. exact C02_frame_holds.
+  split; [exact write_correct_bool_element|]. split; [exact C02_frame_holds|].
+  split; [exact C02_multi_holds|]. split; [exact logix_write_cap_indep|]. split; [exact frag_transfer_correct|exact write_correct_struct].
 Qed.
 Print Assumptions C02_partial.
 
